@@ -2,7 +2,10 @@
 Storage layer of the trie (C10): a *batch* is a 4-level subtree stored as one DB value —
 31 slots, slot 0 a flag (1 = the batch root is a shortcut), slots 1..30 the nodes in heap order,
 each 33 bytes (32-byte hash + flag byte, or key/value ++ 0x02 for a shortcut's pair).
-`serializeBatch` (trie_cache.go) / `parseBatch` (trie.go) transcribed.
+`CacheDB.serializeBatch` (trie_cache.go) and `Trie.parseBatch` (trie.go) transcribed: the value is a
+4-byte bitmap (bit i-1: slot i present; bit 31: shortcut batch) followed by the present slots.
+`parse` consumes the payload 33 bytes at a time, which is what the Go code's absolute slices
+`val[4+33*j : 4+33*(j+1)]` read.
 -/
 namespace Aergo.TrieBatch
 
@@ -14,48 +17,62 @@ structure Batch where
   slots : List (Option Bytes)
 deriving Repr, DecidableEq
 
-/-- big-endian bit list of the 4-byte bitmap: bit i of `bitIsSet(bits, i)` -/
-def bitmapBytes (bits : List Bool) : Bytes :=
-  let rec go : List Bool → Bytes
-    | a :: b :: c :: d :: e :: f :: g :: h :: rest =>
-      UInt8.ofNat ((if a then 128 else 0) + (if b then 64 else 0) + (if c then 32 else 0) + (if d then 16 else 0) +
-        (if e then 8 else 0) + (if f then 4 else 0) + (if g then 2 else 0) + (if h then 1 else 0)) :: go rest
-    | _ => []
-  go bits
+def mkByte (a b c d e f g h : Bool) : UInt8 :=
+  UInt8.ofNat ((if a then 128 else 0) + (if b then 64 else 0) + (if c then 32 else 0) + (if d then 16 else 0) +
+    (if e then 8 else 0) + (if f then 4 else 0) + (if g then 2 else 0) + (if h then 1 else 0))
 
-def byteBits (b : UInt8) : List Bool :=
-  (List.range 8).map fun i => (b.toNat >>> (7 - i)) % 2 == 1
+/-- `bitSet(bits, i)` for all i at once: pack bits, most significant first. -/
+def packBits : List Bool → Bytes
+  | a :: b :: c :: d :: e :: f :: g :: h :: rest => mkByte a b c d e f g h :: packBits rest
+  | _ => []
 
-/-- `CacheDB.serializeBatch`: bitmap (bit i-1 for a non-empty slot i, bit 31 for a shortcut batch) then the non-empty slots. -/
-def serialize (b : Batch) : Bytes :=
-  let present := b.slots.map fun s => match s with | some x => !x.isEmpty | none => false
-  let bits := (present ++ List.replicate (31 - present.length) false).take 31 ++ [b.shortcut]
-  bitmapBytes bits ++ (b.slots.filterMap fun s => match s with | some x => if x.isEmpty then none else some x | none => none).flatten
+/-- `bitIsSet(byte, 0..7)` -/
+def byteBits (x : UInt8) : List Bool :=
+  [x.toNat / 128 % 2 == 1, x.toNat / 64 % 2 == 1, x.toNat / 32 % 2 == 1, x.toNat / 16 % 2 == 1,
+   x.toNat / 8 % 2 == 1, x.toNat / 4 % 2 == 1, x.toNat / 2 % 2 == 1, x.toNat % 2 == 1]
 
-/-- Go slice `val[a:b]`; `none` = out of range (panic). -/
-def slice (v : Bytes) (a b : Nat) : Option Bytes :=
-  if a ≤ b ∧ b ≤ v.length then some ((v.drop a).take (b - a)) else none
+def present (s : Option Bytes) : Bool :=
+  match s with
+  | some x => !x.isEmpty
+  | none => false
 
-/-- `Trie.parseBatch`. `none` = a Go slice-bounds panic (value shorter than its bitmap announces). -/
+/-- the 32 bitmap bits: one per slot 1..30, bit 30 unused, bit 31 = shortcut batch -/
+def bitsOf (b : Batch) : List Bool :=
+  let p := b.slots.map present
+  (p ++ List.replicate (31 - p.length) false).take 31 ++ [b.shortcut]
+
+def payloadOf (slots : List (Option Bytes)) : Bytes :=
+  (slots.filterMap fun s => match s with | some x => if x.isEmpty then none else some x | none => none).flatten
+
+/-- `CacheDB.serializeBatch` -/
+def serialize (b : Batch) : Bytes := packBits (bitsOf b) ++ payloadOf b.slots
+
+/-- read the slots announced by `bits` from the payload, 33 bytes each; `none` = slice out of range (Go panics) -/
+def readSlots : List Bool → Bytes → Option (List (Option Bytes))
+  | [], _ => some []
+  | true :: bits, p =>
+    if p.length < 33 then none else (readSlots bits (p.drop 33)).map (some (p.take 33) :: ·)
+  | false :: bits, p => (readSlots bits p).map (none :: ·)
+
+/-- `Trie.parseBatch`. -/
 def parse (v : Bytes) : Option Batch :=
   if v.length < 4 then none else
   let bits := (v.take 4).flatMap byteBits
-  if bits.getD 31 false then do
-    let k ← slice v 4 37
-    let x ← slice v 37 70
-    pure { shortcut := true, slots := some k :: some x :: List.replicate 28 none }
+  let p := v.drop 4
+  if bits.getD 31 false then
+    if p.length < 66 then none
+    else some { shortcut := true, slots := some (p.take 33) :: some ((p.drop 33).take 33) :: List.replicate 28 none }
   else
-    let rec go (i j : Nat) (fuel : Nat) : Option (List (Option Bytes)) :=
-      match fuel with
-      | 0 => some []
-      | fuel + 1 =>
-        if bits.getD i false then do
-          let s ← slice v (4 + 33 * j) (4 + 33 * (j + 1))
-          let rest ← go (i + 1) (j + 1) fuel
-          pure (some s :: rest)
-        else do
-          let rest ← go (i + 1) j fuel
-          pure (none :: rest)
-    (go 0 0 30).map fun sl => { shortcut := false, slots := sl }
+    (readSlots (bits.take 30) p).map fun sl => { shortcut := false, slots := sl }
+
+/-- What survives a store/load cycle: a shortcut batch keeps only its key and value slots. -/
+def norm (b : Batch) : Batch :=
+  if b.shortcut then { b with slots := b.slots.take 2 ++ List.replicate 28 none } else b
+
+/-- A batch as the trie builds it: 30 slots, every present slot 33 bytes, no empty-but-non-nil slot;
+a shortcut batch has its key and value in slots 1 and 2. -/
+def WF (b : Batch) : Prop :=
+  b.slots.length = 30 ∧ (∀ s ∈ b.slots, ∀ x, s = some x → x.length = 33) ∧
+  (b.shortcut = true → ∃ k v rest, b.slots = some k :: some v :: rest)
 
 end Aergo.TrieBatch
